@@ -49,7 +49,7 @@ def run(tier, seed, only=None):
     core = [{"batch_every_n": 3, "batch_every_b": 0, "batch_every_t": 5},
             {"batch_every_n": 2, "batch_every_b": 10, "batch_every_t": 0},
             {"batch_every_n": 0, "batch_every_b": 10, "batch_every_t": 5}]
-    d_core, d_rest = (6, 5) if tier == "quick" else (8, 7)
+    d_core, d_rest = (6, 5) if tier == "quick" else (7, 6)
     for prod in configs():
         depth = d_core if prod in core else d_rest
         cfg = {"prop": PROPERTY, "cluster": CLUSTER, "discovery": False, "producer": prod,
@@ -64,7 +64,7 @@ def run(tier, seed, only=None):
                  {"batch_every_n": 0, "batch_every_b": 0, "batch_every_t": 5}):
         cfg = {"prop": PROPERTY, "cluster": CLUSTER, "discovery": False, "producer": prod, "same_content": True,
                "menu": {}, "sizes": ["12"], "max_sends": 3, "max_cancels": 2, "timeout_ms": 2000}
-        st = explore.bfs(SPEC, cfg, 6 if tier == "quick" else 8, seed=seed)
+        st = explore.bfs(SPEC, cfg, 6 if tier == "quick" else 7, seed=seed)
         name = "identical-records-n%s-t%s" % (prod["batch_every_n"], prod["batch_every_t"])
         rep.add_stats(name, st)
         rep.notes.append("%s: BFS depth %d, %d states" % (name, st.max_len, st.nodes))
@@ -73,7 +73,7 @@ def run(tier, seed, only=None):
     for prod in ({"unbatched": True}, {"batch_every_n": 2, "batch_every_b": 0, "batch_every_t": 5}):
         cfg = {"prop": PROPERTY, "cluster": CLUSTER, "discovery": True, "producer": prod,
                "menu": {"err": {"18": [35]}}, "sizes": ["12"], "max_sends": 3, "max_cancels": 1, "timeout_ms": 2000}
-        st = explore.bfs(SPEC, cfg, 6 if tier == "quick" else 8, seed=seed)
+        st = explore.bfs(SPEC, cfg, 6 if tier == "quick" else 7, seed=seed)
         name = "discovery-n%s" % prod.get("batch_every_n", "u")
         rep.add_stats(name, st)
         rep.notes.append("%s: BFS depth %d, %d states" % (name, st.max_len, st.nodes))
